@@ -516,3 +516,37 @@ can_overwrite = REG.add(Contract(
     raises={},
     calls={"self.get_metadata": _get_metadata},
 ))
+
+
+# --------------------------------------------------------------------------------------
+# DataDirectory.write_run_metadata: the order of a run document's entries survives (C14: sub_run_spec is ordered by start)
+# --------------------------------------------------------------------------------------
+from pyvc.library import plain_with  # noqa: E402
+
+
+def _json_dumps(eng, args, kw, st, fr, k, node):
+    sk = kw.get("sort_keys", z3.BoolVal(False))
+    eng.oblige("order", "run metadata is written without re-ordering its entries (sub_run_spec lists the subruns by start time)",
+               st, z3.Not(eng.truth(sk)), node)
+    g = dict(st.ghost)
+    g["dumped"] = eng.to_v(args[0])
+    return k(Opq(eng.fresh("json_text", "V")), St(st.env, st.heap, st.pc, g))
+
+
+def _f_write(eng, args, kw, st, fr, k, node):
+    g = dict(st.ghost)
+    g["written"] = z3.BoolVal(True)
+    return k(PNONE, St(st.env, st.heap, st.pc, g))
+
+
+write_run_metadata = REG.add(Contract(
+    "strax/storage/files.py", "DataDirectory.write_run_metadata",
+    params=dict(self="V", run_id="V", metadata="V"),
+    ensures=lambda S, a, r: [("the document handed in is the one that is serialised and written",
+                              S.And(a.ghost.written, S.eq(a.ghost.dumped, a.metadata)))],
+    raises={},
+    ghost={"dumped": z3.Const("nothing_dumped", V), "written": z3.BoolVal(False)},
+    calls={"json.dumps": _json_dumps, "f.write": _f_write, "open": Abstract(), "self._run_meta_path": Abstract(pure=True)},
+    store_hooks={"metadata": lambda eng, st, key, value, node: st},
+    with_handler=plain_with,
+))
